@@ -193,6 +193,21 @@ static void c10_skinny(uint64_t idx, vh_rng *r)
                 VH_COUNT("rejected_calls_checked_in_mid_stream", 1);
                 if (memcmp(s3, s4, more)) bad = "rejected-call-disturbed-the-stream";
             }
+            if (should_accept && ret && !bad) {   /* the same in mid-stream: re-keying with L bytes or with the zero-padded key must leave the two objects in the same state, stream position included */
+                vh_handle h3, h4; uint8_t s3[200], s4[200], zz[200]; unsigned pre = 1 + vh_below(r, 8 * bb - 1), more = 5 * bb + 3;
+                memset(&h3, 0, sizeof(h3)); memset(&h4, 0, sizeof(h4)); memset(zz, 0, sizeof(zz));
+                c->ctr_init(&h3); c->ctr_init(&h4);
+                if (tweaked) { c->ctr_set_tkey(&h3, old, 2 * bb); c->ctr_set_tkey(&h4, old, 2 * bb); } else { c->ctr_set_key(&h3, old, 3 * bb, 0); c->ctr_set_key(&h4, old, 3 * bb, 0); }
+                c->ctr_set_counter(&h3, ctrv, bb); c->ctr_set_counter(&h4, ctrv, bb);
+                c->ctr_encrypt(s3, zz, pre, &h3); c->ctr_encrypt(s4, zz, pre, &h4);
+                vh_call_begin(ename[e]);
+                if (tweaked) { c->ctr_set_tkey(&h3, kp, L); c->ctr_set_tkey(&h4, padded, padlen); } else { c->ctr_set_key(&h3, kp, L, 0); c->ctr_set_key(&h4, padded, padlen, 0); }
+                vh_call_end();
+                c->ctr_encrypt(s3, zz, more, &h3); c->ctr_encrypt(s4, zz, more, &h4);
+                c->ctr_cleanup(&h3); c->ctr_cleanup(&h4);
+                VH_COUNT("accepted_key_lengths_checked_in_mid_stream", 1);
+                if (memcmp(s3, s4, more)) bad = "mid-stream-rekey-differs-from-zero-padded-key";
+            }
             if (should_accept && ret) {
                 c->ctr_init(&h2);
                 if (tweaked) c->ctr_set_tkey(&h2, padded, padlen); else c->ctr_set_key(&h2, padded, padlen, 0);
@@ -251,11 +266,14 @@ static void c10_mantis(uint64_t idx, vh_rng *r)
     /* sizes 0..40 and huge x rounds 0..20 and huge x 3 entry points */
     unsigned e = (unsigned)(idx % 3);
     uint64_t q = idx / 3;
-    unsigned si = (unsigned)(q % (41 + NHUGE)), ri = (unsigned)((q / (41 + NHUGE)) % (21 + 4));
-    static const uint32_t HR[4] = {0xFFFFFFFFu, 0x80000005u, 0x10006u, 255};
+    /* the (size, rounds) grid is walked in a scrambled order (multiplier coprime to the grid size) so that short runs see all kinds */
+    enum { NHR = 8, GRID = (41 + NHUGE) * (21 + NHR) };
+    uint64_t qq = (q % GRID) * 577u % GRID;
+    unsigned si = (unsigned)(qq % (41 + NHUGE)), ri = (unsigned)(qq / (41 + NHUGE));
+    static const uint32_t HR[NHR] = {0xFFFFFFFFu, 0x80000005u, 0x10006u, 255, 261, 264, 0x20007u, 517};      /* incl. values whose low 8 / 16 bits are a legal round count */
     uint32_t L = si < 41 ? si : HUGE_LENS[si - 41], R = ri < 21 ? ri : HR[ri - 21];
-    if (si >= 41 && (q / ((41 + NHUGE) * 25)) % 2 == 1) L = vh_wrap_len(r, 16, 16);
-    if (ri >= 21 && (q / ((41 + NHUGE) * 25)) % 3 == 1) R = vh_wrap_len(r, 5, 8);
+    if (si >= 41 && (q / GRID) % 2 == 1) L = vh_wrap_len(r, 16, 16);
+    if (ri >= 21 && (q / GRID) % 3 == 1) R = vh_wrap_len(r, 5, 8);
     int legal = (L == 16 && R >= 5 && R <= 8), ret = -1, mode = (int)vh_below(r, 2);
     uint8_t keybytes[64], old[16], in[24], tw[24], o1[24], o2[24], o3[24], exp_[24];
     unsigned avail = legal ? 16 : (L > 40 ? 1 + vh_below(r, 40) : L), be, nbe;
@@ -410,7 +428,7 @@ static void c14_case(uint64_t idx)
         case 2: { static const uint32_t b2[] = {0, 1, 15, 17, 32, 7, 9}; L = b2[vh_below(&r, 7)]; if (L == (fn ? 8u : 16u)) L++; cname = fn ? "tweak-len-bad" : "key-size-bad"; break; }
         case 3: L = vh_below(&r, 2) ? big[vh_below(&r, 5)] : vh_wrap_len(&r, fn ? 8 : 16, fn ? 8 : 16); cname = fn ? "tweak-len-huge" : "key-size-huge"; break;
         case 4: if (fn) { L = 9 + vh_below(&r, 9); cname = "tweak-len-bad"; } else { R = vh_below(&r, 5); cname = "rounds-low"; } break;
-        default: if (fn) { L = 0; cname = "tweak-len-0"; } else { R = vh_below(&r, 2) ? 9 + vh_below(&r, 5) : big[vh_below(&r, 5)]; cname = "rounds-high"; } break;
+        default: if (fn) { L = 0; cname = "tweak-len-0"; } else { R = vh_below(&r, 3) == 0 ? 9 + vh_below(&r, 5) : (vh_below(&r, 2) ? big[vh_below(&r, 5)] : ((1 + vh_below(&r, 3)) << (8 * (1 + vh_below(&r, 3)))) + 5 + vh_below(&r, 4)); cname = "rounds-high"; } break;
         }
         avail = L > 40 ? 1 + vh_below(&r, 40) : L;
         gb = vh_gback(0, avail, -1); memcpy(gb, bad, avail);
